@@ -1,12 +1,29 @@
 //go:build verif
 
-// Verification hook, overlaid into pkg/metadata by bin/check C19 (never part of the repository):
-// lets the cmd/broker harness wait until a manager has noticed the loss of its session.
+// Verification hooks, overlaid into pkg/metadata by bin/check C19 (never part of the repository).
 package metadata
+
+import clientv3 "go.etcd.io/etcd/client/v3"
 
 // VerifHasSession reports whether the manager currently holds a session.
 func (m *PartitionLeaseManager) VerifHasSession() bool {
 	m.lm.mu.RLock()
 	defer m.lm.mu.RUnlock()
 	return m.lm.session != nil
+}
+
+// VerifDetachMonitor makes the monitorSession goroutine of the current session a no-op (the
+// manager's session pointer is replaced by a copy of the Session value, so the goroutine finds
+// m.session != session) and returns the session's lease id and a function that ends the
+// session's keep-alive (Done() closes). The next code to notice the loss is then
+// getOrCreateSession, reached through an Acquire of a resource the manager does not own.
+func (m *PartitionLeaseManager) VerifDetachMonitor() (clientv3.LeaseID, func(), bool) {
+	m.lm.mu.Lock()
+	defer m.lm.mu.Unlock()
+	if m.lm.session == nil {
+		return 0, nil, false
+	}
+	cp := *m.lm.session
+	m.lm.session = &cp
+	return cp.Lease(), cp.Orphan, true
 }
